@@ -169,7 +169,10 @@ def df_view(df):
                 if len(s) == 2 and s[0].isdigit() and s[1] in "+-":
                     charge = int(s[0]) * (1 if s[1] == "+" else -1)
                 else:
-                    charge = "unparsable:%s" % s
+                    try:
+                        charge = int(float(s)) or None  # frames fitted from mmCIF keep the signed integer
+                    except ValueError:
+                        charge = "unparsable:%s" % s
             rec = (g("record_type"), g("serial"), g("name"), g("altLoc"), g("resName"), g("chainID"), g("resSeq"), g("iCode"),
                    g("x"), g("y"), g("z"), g("occupancy"), g("tempFactor"), g("element"), charge, g("model"))
         else:
